@@ -125,6 +125,8 @@ pub fn panic_site(msg: &str) -> String {
 
 static CASE_SEQ: AtomicU64 = AtomicU64::new(0);
 static ARMED: AtomicBool = AtomicBool::new(false);
+/// multiplier of the CPU-time limit for the current case (1 for ordinary short inputs)
+static LIMIT_SCALE: AtomicU64 = AtomicU64::new(1);
 static CASE_BUF: Mutex<Vec<u8>> = Mutex::new(Vec::new());
 static WATCH_META: Mutex<String> = Mutex::new(String::new());
 
@@ -138,6 +140,7 @@ pub fn begin_case(desc: &[u8]) {
         g.clear();
         g.extend_from_slice(desc);
         drop(g);
+        LIMIT_SCALE.store(1, Ordering::SeqCst);
         CASE_SEQ.fetch_add(1, Ordering::SeqCst);
         ARMED.store(true, Ordering::SeqCst);
     }
@@ -145,6 +148,14 @@ pub fn begin_case(desc: &[u8]) {
     {
         let _ = desc;
     }
+}
+
+/// As `begin_case`, for deliberately huge inputs (hundreds of kilobytes): the CPU-time limit of this
+/// case is multiplied by `scale`, so that a correct but super-linear (e.g. quadratic) implementation
+/// is not mistaken for a loop; the hang verdict proper is decided on the short inputs.
+pub fn begin_case_scaled(desc: &[u8], scale: u64) {
+    begin_case(desc);
+    LIMIT_SCALE.store(scale.max(1), Ordering::SeqCst);
 }
 
 /// Disarm the watchdog (long harness-side computations that are not library calls).
@@ -200,7 +211,7 @@ pub fn start_watchdog(meta: &str) {
                 cpu_at_change = cpu;
                 continue;
             }
-            if cpu.saturating_sub(cpu_at_change) > limit_s * ticks_per_s {
+            if cpu.saturating_sub(cpu_at_change) > limit_s * ticks_per_s * LIMIT_SCALE.load(Ordering::SeqCst) {
                 let buf = CASE_BUF.lock().unwrap_or_else(|e| e.into_inner()).clone();
                 // re-check that the case is still the same one
                 if CASE_SEQ.load(Ordering::SeqCst) != seq {
